@@ -25,6 +25,15 @@ def mk_page(rng, boxes, slant=0.0, with_lines=True):
         poly = np.array([[x0, y0], [x1, y0], [x1, y1], [x0, y1]])
         if rng.random() < 0.3 and x1 > x0 + 4 and y1 > y0 + 4:   # L-shape / extra vertices, same bounding box
             poly = np.array([[x0, y0], [x1, y0], [x1, y1], [(x0 + x1) // 2, y1], [(x0 + x1) // 2, (y0 + y1) // 2], [x0, (y0 + y1) // 2]])
+        elif rng.random() < 0.25 and x1 > x0 + 8 and y1 > y0 + 8:  # arbitrary (non-simple) outlines, same bounding box unless spur
+            xm, ym = (x0 + x1) // 2, (y0 + y1) // 2
+            kind = rng.randrange(3)
+            if kind == 0:      # rectangle with a zero-width spur
+                poly = np.array([[x0, y0], [x1, y0], [x1, ym], [x1 + 40, ym], [x1, ym], [x1, y1], [x0, y1]])
+            elif kind == 1:    # self-overlapping ring (walks part of its area twice)
+                poly = np.array([[x0, y0], [x1, y0], [x1, y1], [x0, y1], [x0, ym], [xm, ym], [xm, y0 + 2], [x0 + 2, y0 + 2]])
+            else:              # bow-tie
+                poly = np.array([[x0, y0], [x1, y1], [x1, y0], [x0, y1]])
         reg = RegionLayout('r%d' % i, poly)
         reg.transcription = 'text %d' % i
         if with_lines:
@@ -137,7 +146,7 @@ def run(ctx):
     from sklearn.cluster import DBSCAN
     rng = ctx.rng
     ctx.rule = ('0..10 regions with unique ids: grids/columns, mutually overlapping in both axes (recursive fallback), identical, '
-                'zero-width/zero-height/point boxes, L-shaped polygons; pages with slanted lines (non-zero de-skew, oracle only); both '
+                'zero-width/zero-height/point boxes, L-shaped polygons, non-simple outlines (spur, self-overlapping ring, bow-tie); pages with slanted lines (non-zero de-skew, oracle only); both '
                 'sorters; intersection parameter 0.1 (and others); non-trivial = >= 3 regions and the order changed')
     ctx.assumptions += ['shapely affinity.rotate / DBSCAN are parameters (trusted); NumPy x/0 = inf or nan']
     reqs, impl = [], []
@@ -145,12 +154,15 @@ def run(ctx):
     img = np.zeros((3000, 3000, 3), dtype=np.uint8)
     for it in range(n):
         boxes = gen_boxes(rng)
-        slanted = rng.random() < 0.15
+        slanted = rng.random() < 0.3
         num, den = rng.choice([(1, 10), (1, 10), (1, 10), (0, 1), (1, 2)])
         inp = dict(boxes=boxes, slanted=slanted, intersect_param='%d/%d' % (num, den))
         ctx.evaluations += 1
         page = mk_page(rng, boxes, slant=(rng.uniform(-0.2, 0.2) if slanted else 0.0))
         before = copy.deepcopy(page)
+        inp['polygons'] = [np.asarray(r.polygon).tolist() for r in page.regions]
+        pboxes = [[int(np.min(np.asarray(r.polygon)[:, 0])), int(np.min(np.asarray(r.polygon)[:, 1])),
+                   int(np.max(np.asarray(r.polygon)[:, 0])), int(np.max(np.asarray(r.polygon)[:, 1]))] for r in page.regions]
         smart = SmartRegionSorter(cfg(FakeIntersectionParameter=num / den))
         try:
             out = with_timeout(lambda: smart.process_page(img, copy.deepcopy(page)))
@@ -173,10 +185,10 @@ def run(ctx):
         ctx.sample(dict(inp, smart=ids_smart, naive=ids_naive), limit=4)
         if not slanted and ids_smart is not None:
             reqs.append(dict(p='C12', op='smart', num=1, den=10,   # intersect() is always called with its default 0.1: the configured value is ignored
-                              boxes=[[i] + list(b) for i, b in enumerate(boxes)]))
+                              boxes=[[i] + list(b) for i, b in enumerate(pboxes)]))
             impl.append((inp, [int(x[1:]) for x in ids_smart]))
         if ids_naive is not None and boxes:
-            keys = [int(b[1]) for b in boxes]
+            keys = [int(b[1]) for b in pboxes]
             labels = DBSCAN(eps=3000 // 10, min_samples=1).fit_predict(np.array(keys).reshape((-1, 1)))
             reqs.append(dict(p='C12', op='naive', keys=keys, labels=[int(x) for x in labels]))
             impl.append((inp, [int(x[1:]) for x in ids_naive]))
